@@ -33,14 +33,18 @@ def c27(n5, n4, n3):
         hs.append(H("VerifC27"+t, N=n4, VER=4))
         hs.append(H("VerifC27"+t, N=n3, VER=3))
     hs.append(H("VerifC27Primitives", N=6))
+    if n5 <= 8:
+        hs.append(H("VerifC27LongProps", HEAD=4, TAIL=2, FILL=252, FILLN=3))
+    else:
+        hs.append(H("VerifC27LongProps", HEAD=5, TAIL=3, FILL=250, FILLN=7))
     return hs
 C["C27"] = {
  "pkgs": ["./packets"],
  "technique": "bounded symbolic execution of all 13 real decoders (go/ssa) on an unconstrained symbolic buffer; every bounds check is an SMT query; panic = counterexample, replayed natively",
  "quick": {"harnesses": c27(8, 9, 8), "budget_s": 400, "witnesses": 4,
-   "bounds": "every byte string of length 0..8 (v5), 0..9 (v4), 0..8 (v3) as the body of each of the 13 packet types; PUBLISH with symbolic QoS 0..2; FixedHeader.Remaining = len(buf)"},
+   "bounds": "every byte string of length 0..8 (v5), 0..9 (v4), 0..8 (v3) as the body of each of the 13 packet types; PUBLISH with symbolic QoS 0..2; FixedHeader.Remaining = len(buf); plus property sections of 258..263 bytes (4 symbolic head bytes, 252..255 filler bytes, 2 symbolic tail bytes) that must be decoded or rejected within 200k interpreter steps"},
  "thorough": {"harnesses": c27(10, 12, 10), "budget_s": 3000, "witnesses": 8,
-   "bounds": "every byte string of length 0..10 (v5), 0..12 (v4), 0..10 (v3) for each of the 13 packet types"},
+   "bounds": "every byte string of length 0..10 (v5), 0..12 (v4), 0..10 (v3) for each of the 13 packet types; property sections of 258..268 bytes (5 symbolic head bytes, 250..257 filler bytes, 3 symbolic tail bytes)"},
  "outside_bounds": ["buffers longer than the stated length (the same code runs with larger offsets: stated, not proven)", "FixedHeader.Remaining different from len(buf) (ReadPacket always passes a buffer of exactly Remaining bytes)"],
  "stubs": ["utf8.Valid: exact term-level encoding of UTF-8 validity (no forking)", "bytes.Buffer: real SSA"],
  "trusted_base": ENGINE_TB,
@@ -362,9 +366,9 @@ C["C18"] = {
 C["C40"] = {
  "pkgs": ["."],
  "technique": "bounded symbolic execution of Server.Publish/Subscribe/Unsubscribe (inline client API), InlineSubscribe/InlineUnsubscribe and the inline gathering in scanSubscribers over solver-chosen histories, against a set model of (identifier, filter) pairs and the reference matcher",
- "quick": {"harnesses": [H("VerifC40Inline", STEPS=2)], "budget_s": 400, "witnesses": 8, "perm_limit": 2,
-   "bounds": "every history of 2 steps among {inline subscribe (id 1..2, filter in {a/b, a/#, a/+, #}), inline unsubscribe, Publish(topic in {a, a/b}, QoS 0..2, retain)}, one regular client subscribed to a/# with symbolic QoS"},
- "thorough": {"harnesses": [H("VerifC40Inline", STEPS=3)], "budget_s": 3000, "witnesses": 16, "perm_limit": 2, "bounds": "as quick with histories of 3 steps"},
+ "quick": {"harnesses": [H("VerifC40Inline", STEPS=2), H("VerifC40Prune")], "budget_s": 400, "witnesses": 8, "perm_limit": 2,
+   "bounds": "every history of 2 steps among {inline subscribe (id 1..2, filter in {a/b, a/#, a/+, #}), inline unsubscribe, Publish(topic in {a, a/b}, QoS 0..2, retain), another client's subscribe/unsubscribe of one of the filters, retained clear}; plus: one inline subscription x {same-filter, deeper-filter, retained set+clear, shared subscription} come-and-go by others, then a publish, one regular client subscribed to a/# with symbolic QoS"},
+ "thorough": {"harnesses": [H("VerifC40Inline", STEPS=3), H("VerifC40Prune")], "budget_s": 3000, "witnesses": 16, "perm_limit": 2, "bounds": "as quick with histories of 3 steps"},
  "outside_bounds": ["longer histories", "inline subscription handlers that publish re-entrantly"],
  "stubs": SRV_STUBS, "trusted_base": SRV_TB,
 }
@@ -385,12 +389,14 @@ def c28(thorough):
     hs = [H("VerifC28Stream", N=5 if thorough else 4, VER=5), H("VerifC28Stream", N=5 if thorough else 4, VER=4), H("VerifC28MaxSize")]
     for t in range(0, 16):
         hs.append(H("VerifC28Process", TYPE=t))
+    # a decoder that never returns hangs the connection's read goroutine: the long-property-section harness of C27
+    hs.append(H("VerifC27LongProps", pkg="./packets", HEAD=4, TAIL=2, FILL=252, FILLN=3))
     return hs
 C["C28"] = {
- "pkgs": ["."],
+ "pkgs": [".", "./packets"],
  "technique": "bounded symbolic execution of the real connection handler on an arbitrary byte stream after a valid CONNECT (every panic site is a solver query), of processPacket for arbitrary packet values, and of the size refusal arithmetic",
  "quick": {"harnesses": c28(False), "budget_s": 600, "witnesses": 3, "perm_limit": 1,
-   "bounds": "stream: every byte string of 0..4 bytes after CONNECT (v4 and v5 clients, with/without will, clean or not), server MaximumPacketSize 24, a second well-behaved client connected throughout; process: for each of the 16 packet types a packet with symbolic QoS/DUP/retain/id/reason code and type-specific fields from small sets incl. invalid ones, on a session with symbolic in-flight record and exhausted or full receive quota, protocol 3/4/5; size test: MaximumPacketSize symbolic 4..200, 1- and 2-byte remaining lengths symbolic"},
+   "bounds": "stream: every byte string of 0..4 bytes after CONNECT (v4 and v5 clients, with/without will, clean or not), server MaximumPacketSize 24, a second well-behaved client connected throughout; process: for each of the 16 packet types a packet with symbolic QoS/DUP/retain/id/reason code and type-specific fields from small sets incl. invalid ones, on a session with symbolic in-flight record and exhausted or full receive quota, protocol 3/4/5; size test: MaximumPacketSize symbolic 4..200, 1- and 2-byte remaining lengths symbolic; termination: property sections of 258..263 bytes (4 symbolic head bytes, filler, 2 symbolic tail bytes) decoded or rejected within 200k steps"},
  "thorough": {"harnesses": c28(True), "budget_s": 3000, "witnesses": 6, "perm_limit": 1, "bounds": "as quick with streams of 0..5 bytes"},
  "outside_bounds": ["longer streams (the decoders alone are covered to 8-12 bytes by C27)", "process-level effects (memory, goroutine leaks)", "true parallelism between the two connections (cooperative scheduling; data-race freedom is C33, not decided)"],
  "stubs": SRV_STUBS + LIVE, "trusted_base": SRV_TB,
@@ -441,9 +447,9 @@ C["C38"] = {
 C["C35"] = {
  "pkgs": ["."],
  "technique": "context-bounded symbolic execution of two or three real connection handlers (attachClient) as interpreted goroutines: every interleaving at synchronisation operations (atomics, locks, channel and connection operations) with at most k pre-emptions is an engine decision",
- "quick": {"harnesses": [H("VerifC35Limit", CONNS=2, MAX=1, PREEMPT=1), H("VerifC35Limit", CONNS=3, MAX=2, PREEMPT=0)], "budget_s": 300, "witnesses": 4, "perm_limit": 1,
-   "bounds": "2 concurrent attempts with MaximumClients=1 and <= 1 pre-emption; 3 attempts with MaximumClients=2 under cooperative scheduling; protocol 4/5"},
- "thorough": {"harnesses": [H("VerifC35Limit", CONNS=2, MAX=1, PREEMPT=2), H("VerifC35Limit", CONNS=3, MAX=2, PREEMPT=1)], "budget_s": 1800, "witnesses": 4, "perm_limit": 1, "bounds": "<= 2 pre-emptions for 2 attempts, <= 1 for 3 attempts"},
+ "quick": {"harnesses": [H("VerifC35Limit", CONNS=2, MAX=1, PREEMPT=1), H("VerifC35Limit", CONNS=3, MAX=2, PREEMPT=0), H("VerifC35History", MAX=2, STEPS=3, PREEMPT=0)], "budget_s": 300, "witnesses": 4, "perm_limit": 1,
+   "bounds": "2 concurrent attempts with MaximumClients=1 and <= 1 pre-emption; 3 attempts with MaximumClients=2 under cooperative scheduling; protocol 4/5; sequential histories of 3 steps among {connect, takeover of a live connection, hang-up} followed by MaximumClients+1 fresh attempts"},
+ "thorough": {"harnesses": [H("VerifC35Limit", CONNS=2, MAX=1, PREEMPT=2), H("VerifC35Limit", CONNS=3, MAX=2, PREEMPT=1), H("VerifC35History", MAX=2, STEPS=4, PREEMPT=0)], "budget_s": 1800, "witnesses": 4, "perm_limit": 1, "bounds": "<= 2 pre-emptions for 2 attempts, <= 1 for 3 attempts"},
  "outside_bounds": ["more pre-emptions / more connections", "pre-emption between non-synchronising instructions (sound only for data-race-free code; C33 is not decided)", "counterexample schedules are not natively replayable without yield hooks in /repo (none are installed); they are reported with the decision list"],
  "stubs": SRV_STUBS + LIVE, "trusted_base": SRV_TB,
 }
@@ -460,9 +466,9 @@ def st(h, **kw):
 C["C20"] = {
  "pkgs": ST_PKGS + ["."],
  "technique": "bounded symbolic execution of the real storage hooks of all four back ends and of the server's restore path (readStore, load*) above an abstract key->record map: field fidelity with symbolic records, key injectivity with symbolic identifiers, restart equivalence through the real connection handler",
- "quick": {"harnesses": st("VerifC20Fields") + st("VerifC20Keys") + st("VerifC20KeysClients") + st("VerifC20Restart"), "budget_s": 600, "witnesses": 2, "perm_limit": 1,
-   "bounds": "per back end: one client record with symbolic expiry settings/limits/will, one subscription with all options symbolic, one retained and one in-flight message with symbolic ids, times, properties; two (client id, filter) pairs and two client ids/topics of 1..3 bytes over {: _ / a}; restart after connect + subscribe + retained publish + one unacknowledged QoS 1 delivery (protocol 4/5)"},
- "thorough": {"harnesses": st("VerifC20Fields") + st("VerifC20Keys") + st("VerifC20KeysClients") + st("VerifC20Restart"), "budget_s": 1800, "witnesses": 4, "perm_limit": 2, "bounds": "as quick with map orders up to 2"},
+ "quick": {"harnesses": st("VerifC20Fields") + st("VerifC20Keys") + st("VerifC20KeysClients") + st("VerifC20Restart") + st("VerifC20Resume"), "budget_s": 600, "witnesses": 2, "perm_limit": 1,
+   "bounds": "per back end: one client record with symbolic expiry settings/limits/will, one subscription with all options symbolic, one retained and one in-flight message with symbolic ids, times, properties; two (client id, filter) pairs and two client ids/topics of 1..3 bytes over {: _ / a}; restart after connect + subscribe + retained publish + one unacknowledged QoS 1 delivery (protocol 4/5); restart after a session resume (takeover or reconnect) with any subset of {outbound QoS 2 at PUBLISH or PUBREL stage, outbound QoS 1, inbound QoS 2 awaiting PUBREL} in flight"},
+ "thorough": {"harnesses": st("VerifC20Fields") + st("VerifC20Keys") + st("VerifC20KeysClients") + st("VerifC20Restart") + st("VerifC20Resume"), "budget_s": 1800, "witnesses": 4, "perm_limit": 2, "bounds": "as quick with map orders up to 2"},
  "outside_bounds": ["the storage engines themselves and the JSON codec (stubbed: an LSM tree or a redis server is not a bounded arithmetic kernel)", "longer histories before the restart", "identifiers longer than 3 bytes"],
  "stubs": ST_STUBS, "trusted_base": SRV_TB,
 }
